@@ -38,6 +38,9 @@
 #include <vector>
 
 extern "C" void __sanitizer_set_death_callback(void (*)(void)) __attribute__((weak));
+// rapidcheck's deep, ever-changing call stacks make ASan's stack depot grow without bound (14 KB and growing
+// per case, superlinear time) unless the allocation-context depth is capped.
+extern "C" const char *__asan_default_options() { return "malloc_context_size=5:quarantine_size_mb=32"; }
 
 namespace pbt {
 
@@ -210,6 +213,9 @@ struct Ctx {
     bool                            exhaustive{false};
     std::string                     exhaustive_what;
     bool                            check_ledger{true};
+    // enumeration visits every case once: distinct non-trivial cases are counted instead of hashed
+    bool                            distinct_by_construction{false};
+    uint64_t                        nontrivial_counted{0};
 
     // failure record
     bool        failed{false};
@@ -235,8 +241,15 @@ struct Ctx {
         if (is_known(cls)) {
             throw KnownSkip{cls};
         }
+        if (survey) { // development aid: census of deviation classes instead of stopping at the first
+            if (++labels["survey:" + cls] <= (unsigned long)atoi(getenv("VERIF_SURVEY"))) {
+                fprintf(stderr, "SURVEY %s: %s\n", cls.c_str(), msg.c_str());
+            }
+            throw KnownSkip{cls};
+        }
         throw Failure{cls, msg};
     }
+    bool survey{getenv("VERIF_SURVEY") != nullptr};
     // Same, but lets the case continue (for cases made of many independent sub-checks).
     void deviation_continue(const std::string &cls, const std::string &msg) {
         if (is_known(cls)) {
@@ -285,8 +298,8 @@ struct Ctx {
             return;
         }
         fprintf(f, "{\n \"evaluations\": %" PRIu64 ",\n \"discards\": %" PRIu64 ",\n \"excluded_known\": %" PRIu64
-                   ",\n \"nontrivial_total\": %" PRIu64 ",\n \"nontrivial_distinct\": %zu,\n",
-                evaluations, discards, excluded_known, nontrivial_total, nt.size());
+                   ",\n \"nontrivial_total\": %" PRIu64 ",\n \"nontrivial_distinct\": %zu,\n \"nontrivial_counted\": %" PRIu64 ",\n",
+                evaluations, discards, excluded_known, nontrivial_total, nt.size(), nontrivial_counted);
         fprintf(f, " \"exhaustive\": %s,\n \"exhaustive_what\": %s,\n", exhaustive ? "true" : "false",
                 json_str(exhaustive_what).c_str());
         fprintf(f, " \"ledger\": {\"allocs\": %" PRIu64 ", \"frees\": %" PRIu64 "},\n", total_allocs, total_frees);
@@ -382,6 +395,40 @@ Status exec_case(Ctx &ctx, const typename H::Case &c) {
             if (fresh && ctx.samples.size() < ctx.max_samples && (ctx.nt.size() % 97 == 1 || ctx.nt.size() < 3)) {
                 ctx.samples.push_back(text.size() > 1500 ? text.substr(0, 1500) + "...(truncated)" : text);
             }
+        }
+    }
+    return st;
+}
+
+// Lean variant for exhaustive sweeps (billions of cases): no ledger, no per-case text; the case text is only
+// produced for a failure. Cases are distinct by construction.
+template <class H>
+Status exec_case_fast(Ctx &ctx, const typename H::Case &c) {
+    ctx.cur_nontrivial = false;
+    ++ctx.evaluations;
+    Status st = Status::Pass;
+    try {
+        H::run(c, ctx);
+    } catch (const Failure &f) {
+        ctx.failed    = true;
+        ctx.fail_cls  = f.cls;
+        ctx.fail_msg  = f.msg;
+        ctx.fail_text = H::to_text(c);
+        st            = Status::Fail;
+    } catch (const KnownSkip &k) {
+        ++ctx.known_hits[k.cls];
+        ++ctx.excluded_known;
+        st = Status::Known;
+    } catch (const Discard &) {
+        ++ctx.discards;
+        --ctx.evaluations;
+        st = Status::Discarded;
+    }
+    if ((st == Status::Pass || st == Status::Known) && ctx.cur_nontrivial) {
+        ++ctx.nontrivial_total;
+        ++ctx.nontrivial_counted;
+        if (ctx.samples.size() < ctx.max_samples && (ctx.nontrivial_counted % 100003) == 1) {
+            ctx.samples.push_back(H::to_text(c));
         }
     }
     return st;
